@@ -39,5 +39,10 @@ func (e ArrayItemTupleExpr) Eval(ctx context.Context, local Scope) (_ Value, err
 	if err != nil {
 		return nil, WrapContextErr(err, e, local)
 	}
-	return NewArrayItemTuple(int(at.(Number).Float64()), value), nil
+	// NewTuple specialises the tuple only when the index is an integer; a truncating cast would
+	// put (@: 0.5, @item: x) at index 0.
+	if _, is := at.(Number); !is {
+		return nil, WrapContextErr(fmt.Errorf("@ must be a number, not %s", ValueTypeAsString(at)), e, local)
+	}
+	return NewTuple(NewAttr("@", at), NewAttr(ArrayItemAttr, value)), nil
 }
